@@ -18,6 +18,7 @@ import (
 	"os"
 	"os/exec"
 	"path/filepath"
+	"regexp"
 	"runtime"
 	"sort"
 	"strconv"
@@ -428,6 +429,16 @@ func runJob(root, bin, id, tier string, seed int64, replay, runDir string, j *jo
 			"-rapid.checks", strconv.Itoa(checks), "-rapid.seed", strconv.FormatUint(rseed, 10),
 			"-rapid.nofailfile", "-rapid.shrinktime", "45s"}
 	case "fuzz":
+		// native fuzzing needs a coverage-instrumented binary
+		fbin := strings.TrimSuffix(bin, ".test") + ".fuzz.test"
+		build := exec.Command("go", "test", "-tags", "verif", "-c", "-fuzz", ".", "-o", fbin, "./checks/"+strings.ToLower(id))
+		build.Dir = root
+		if out, err := build.CombinedOutput(); err != nil {
+			os.WriteFile(j.log, out, 0o644)
+			j.exit = 2
+			return
+		}
+		bin = fbin
 		fs := u.FuzzS.get(tier, 60)
 		cache := filepath.Join(runDir, "fuzzcache-"+u.Test)
 		os.MkdirAll(cache, 0o755)
@@ -452,6 +463,9 @@ func runJob(root, bin, id, tier string, seed int64, replay, runDir string, j *jo
 	shArgs := append([]string{"-c", fmt.Sprintf("ulimit -v %d 2>/dev/null; exec \"$0\" \"$@\"", memKB), bin}, args...)
 	cmd := exec.CommandContext(ctx, "/bin/sh", shArgs...)
 	cmd.Dir = filepath.Join(root, "checks", strings.ToLower(id))
+	if u.Kind == "fuzz" {
+		cmd.Dir = runDir // crashers (testdata/fuzz/...) land in the run directory, which is removed afterwards
+	}
 	cmd.Env = append(os.Environ(),
 		"VERIF_UNIT="+u.Test,
 		"VERIF_TIER="+tier,
@@ -481,6 +495,32 @@ func runJob(root, bin, id, tier string, seed int64, replay, runDir string, j *jo
 		}
 	}
 	os.WriteFile(j.log, buf.Bytes(), 0o644)
+	if u.Kind == "fuzz" {
+		// the fuzz coordinator does not run the recorder; build the shard file here
+		sh := shard{Property: id, Unit: u.Test, Completed: !j.timedOut, Classes: map[string]int64{}}
+		if m := regexp.MustCompile(`execs: (\d+)`).FindAllStringSubmatch(buf.String(), -1); len(m) > 0 {
+			n, _ := strconv.ParseInt(m[len(m)-1][1], 10, 64)
+			sh.Evaluations = n
+			sh.Classes["native_fuzz_execs:"+u.Test] = n
+		}
+		if j.exit != 0 {
+			// the fuzz target writes every failing input as out/<ID>/fuzz-*.json; report the smallest new one
+			files, _ := filepath.Glob(filepath.Join(root, "out", id, "fuzz-*.json"))
+			best, bestSize := "", int64(0)
+			for _, f := range files {
+				if st, err := os.Stat(f); err == nil && st.ModTime().After(t0) && (best == "" || st.Size() < bestSize) {
+					best, bestSize = f, st.Size()
+				}
+			}
+			if best != "" {
+				sh.Violations = append(sh.Violations, violation{Replay: best, Kind: "input", Msg: "native fuzzing found a failing input: " + tail(buf.String(), 1200)})
+			} else {
+				sh.Infra = append(sh.Infra, "native fuzzing of "+u.Test+" failed without a saved input: "+tail(buf.String(), 1500))
+			}
+		}
+		b, _ := json.Marshal(sh)
+		os.WriteFile(j.out, b, 0o644)
+	}
 	if os.Getenv("VERIF_VERBOSE") != "" {
 		fmt.Printf("--- %s shard %d (exit %d, %v)\n%s\n", u.Test, j.shardN, j.exit, j.dur, tail(buf.String(), 6000))
 	}
